@@ -442,11 +442,12 @@ class Class(object):
         
     def __delattr__(self, name):
         uname = name.upper()
-        for name in self.__dict__:
-            if uname == name.upper():
-                break
+        for attr in self.__dict__:
+            if uname == attr.upper():
+                del self.__dict__[attr]
+                return
 
-        del self.__dict__[name]
+        raise AttributeError(name)
     
     def __str__(self):
         values = list()
